@@ -61,6 +61,9 @@ type glTarget struct {
 	// (every free name must be covered by `paths`) returning the expression blockResult afterwards.  The block
 	// must not leave the enclosing function (no return inside).
 	traceLean string // Lean type of one trace entry ("" = the function has no effect externs)
+	// stores: assignments whose left-hand side (printed) is one of these are EFFECTS: `<ctor> <value>` is appended to
+	// the trace (writes into maps or fields of shared state)
+	stores map[string]string
 	// typeCases: for `switch k := x.(type)`: printed Go type of a case -> the Lean pattern that stands for it and the
 	// selector chains on the bound variable that the pattern's fields stand for (added to `paths` inside the case)
 	typeCases   map[string]glTypeCase
@@ -219,8 +222,12 @@ func (c *glCtx) ignorable(call *ast.CallExpr) bool {
 func (c *glCtx) expr(e ast.Expr) (string, string) {
 	// configured selector chains first
 	if c.t.paths != nil {
-		if r, ok := c.t.paths[c.p.str(e)]; ok {
-			return r[0], r[1]
+		// compared without white space: go/printer keeps the line breaks of chained calls
+		key := strings.Join(strings.Fields(c.p.str(e)), "")
+		for k, r := range c.t.paths {
+			if strings.Join(strings.Fields(k), "") == key {
+				return r[0], r[1]
+			}
 		}
 	}
 	switch x := e.(type) {
@@ -539,7 +546,7 @@ func (c *glCtx) structField(ty, field string) (string, bool) {
 				for _, fl := range st.Fields.List {
 					for _, n := range fl.Names {
 						if n.Name == field {
-							return c.p.str(fl.Type), true
+							return normInt(c.p.str(fl.Type)), true
 						}
 					}
 				}
@@ -547,6 +554,16 @@ func (c *glCtx) structField(ty, field string) (string, bool) {
 		}
 	}
 	return "", false
+}
+
+// normInt: the sized integer types are read as the unbounded `int` of the translation (overflow is not modelled;
+// the trusted-base note in DESIGN.md §16 says so)
+func normInt(ty string) string {
+	switch ty {
+	case "int8", "int16", "int32", "int64", "uint", "uint8", "uint16", "uint32", "uint64":
+		return "int"
+	}
+	return ty
 }
 
 func hasExtParam(t *glTarget) bool { return strings.Contains(t.binders, "(ext :") }
@@ -614,61 +631,156 @@ func declaredNames(list []ast.Stmt) []string {
 	return out
 }
 
-// assignedOuter: variables assigned (not declared) anywhere inside the statements, that are visible
-// in the current scopes
+// assignedOuter: variables of the enclosing scopes that the statements assign (not declare), with Go's block
+// scoping: a name re-declared inside a block (`:=`, `var`, a range variable) is a new variable from there to the end
+// of that block, and assignments to it there do not count. Writes configured as effects count as `trace_`.
 func (c *glCtx) assignedOuter(list []ast.Stmt) []string {
 	seen := map[string]bool{}
-	local := map[string]int{}
-	var walk func(n ast.Node)
-	note := func(e ast.Expr) {
-		if id, ok := e.(*ast.Ident); ok && id.Name != "_" {
-			if local[id.Name] > 0 {
-				return
-			}
+	cp := func(m map[string]bool) map[string]bool {
+		n := map[string]bool{}
+		for k, v := range m {
+			n[k] = v
+		}
+		return n
+	}
+	note := func(e ast.Expr, declared map[string]bool) {
+		if _, ok := c.t.stores[c.p.str(e)]; ok {
+			seen["trace_"] = true
+			return
+		}
+		if sel, ok := e.(*ast.SelectorExpr); ok {
+			e = sel.X
+		}
+		if id, ok := e.(*ast.Ident); ok && id.Name != "_" && !declared[id.Name] {
 			if _, ok := c.lookup(id.Name); ok {
 				seen[id.Name] = true
 			}
 		}
 	}
-	walk = func(n ast.Node) {
-		ast.Inspect(n, func(m ast.Node) bool {
-			switch x := m.(type) {
-			case *ast.AssignStmt:
-				if x.Tok == token.DEFINE {
-					// a := inside the loop body declares a body-local variable: from here on, assignments to
-					// that name are not loop-carried (conservative: names shadowing outer variables are refused below)
-					for _, l := range x.Lhs {
-						if id, ok := l.(*ast.Ident); ok {
-							if _, outer := c.lookup(id.Name); outer && id.Name != "_" && assignsIdent(list, id.Name) {
-								c.fail(x, "the body redeclares the outer variable %s and also assigns to that name", id.Name)
-							}
-							local[id.Name]++
-						}
-					}
-				} else {
-					for _, l := range x.Lhs {
-						note(l)
+	var walkList func(l []ast.Stmt, declared map[string]bool)
+	var walkStmt func(st ast.Stmt, declared map[string]bool)
+	walkList = func(l []ast.Stmt, declared map[string]bool) {
+		for _, st := range l {
+			walkStmt(st, declared)
+		}
+	}
+	walkStmt = func(st ast.Stmt, declared map[string]bool) {
+		if st == nil {
+			return
+		}
+		if c.hasEffectShallow(st) {
+			seen["trace_"] = true
+		}
+		switch x := st.(type) {
+		case *ast.AssignStmt:
+			if x.Tok == token.DEFINE {
+				for _, l := range x.Lhs {
+					if id, ok := l.(*ast.Ident); ok {
+						declared[id.Name] = true
 					}
 				}
-			case *ast.IncDecStmt:
-				note(x.X)
-			case *ast.CallExpr:
-				if ex, ok := c.t.externs[c.p.str(x.Fun)]; ok && ex.effect != "" {
-					seen["trace_"] = true
+			} else {
+				for _, l := range x.Lhs {
+					note(l, declared)
 				}
 			}
-			return true
-		})
+		case *ast.IncDecStmt:
+			note(x.X, declared)
+		case *ast.DeclStmt:
+			if gd, ok := x.Decl.(*ast.GenDecl); ok {
+				for _, sp := range gd.Specs {
+					if vs, ok := sp.(*ast.ValueSpec); ok {
+						for _, n := range vs.Names {
+							declared[n.Name] = true
+						}
+					}
+				}
+			}
+		case *ast.BlockStmt:
+			walkList(x.List, cp(declared))
+		case *ast.IfStmt:
+			sc := cp(declared)
+			walkStmt(x.Init, sc)
+			walkList(x.Body.List, cp(sc))
+			if x.Else != nil {
+				walkStmt(x.Else, cp(sc))
+			}
+		case *ast.ForStmt:
+			sc := cp(declared)
+			walkStmt(x.Init, sc)
+			walkStmt(x.Post, sc)
+			walkList(x.Body.List, cp(sc))
+		case *ast.RangeStmt:
+			sc := cp(declared)
+			if x.Tok == token.DEFINE {
+				for _, e := range []ast.Expr{x.Key, x.Value} {
+					if id, ok := e.(*ast.Ident); ok {
+						sc[id.Name] = true
+					}
+				}
+			} else {
+				for _, e := range []ast.Expr{x.Key, x.Value} {
+					if e != nil {
+						note(e, sc)
+					}
+				}
+			}
+			walkList(x.Body.List, cp(sc))
+		case *ast.SwitchStmt:
+			sc := cp(declared)
+			walkStmt(x.Init, sc)
+			for _, cl := range x.Body.List {
+				walkList(cl.(*ast.CaseClause).Body, cp(sc))
+			}
+		case *ast.TypeSwitchStmt:
+			sc := cp(declared)
+			walkStmt(x.Init, sc)
+			for _, cl := range x.Body.List {
+				walkList(cl.(*ast.CaseClause).Body, cp(sc))
+			}
+		}
 	}
-	for _, s := range list {
-		walk(s)
-	}
+	walkList(list, map[string]bool{})
 	var out []string
 	for n := range seen {
 		out = append(out, n)
 	}
 	sort.Strings(out)
 	return out
+}
+
+// hasEffectShallow: does the statement itself (not the statements nested in its blocks) call an effect external?
+func (c *glCtx) hasEffectShallow(st ast.Stmt) bool {
+	found := false
+	check := func(n ast.Node) {
+		if n == nil {
+			return
+		}
+		ast.Inspect(n, func(m ast.Node) bool {
+			if _, ok := m.(*ast.BlockStmt); ok {
+				return false
+			}
+			if call, ok := m.(*ast.CallExpr); ok {
+				if ex, ok := c.t.externs[c.p.str(call.Fun)]; ok && ex.effect != "" {
+					found = true
+				}
+			}
+			return true
+		})
+	}
+	switch x := st.(type) {
+	case *ast.AssignStmt, *ast.ExprStmt, *ast.ReturnStmt, *ast.IncDecStmt, *ast.DeclStmt:
+		check(x)
+	case *ast.IfStmt:
+		check(x.Cond)
+	case *ast.RangeStmt:
+		check(x.X)
+	case *ast.ForStmt:
+		check(x.Cond)
+	case *ast.SwitchStmt:
+		check(x.Tag)
+	}
+	return found
 }
 
 func tuple(names []string) string {
@@ -791,6 +903,14 @@ func (c *glCtx) stmts(list []ast.Stmt, d int) string {
 		}
 		c.fail(x, "expression statement %s", c.p.str(x))
 	case *ast.IncDecStmt:
+		if sel, ok := x.X.(*ast.SelectorExpr); ok {
+			if base, ok := sel.X.(*ast.Ident); ok && x.Tok == token.INC {
+				if _, ok := c.lookup(base.Name); ok {
+					b := leanIdent(base.Name)
+					return "let " + b + " := { " + b + " with " + sel.Sel.Name + " := " + b + "." + sel.Sel.Name + " + " + c.intLit(1) + " };" + ind(d) + c.stmts(rest, d)
+				}
+			}
+		}
 		id, ok := x.X.(*ast.Ident)
 		if !ok {
 			c.fail(x, "inc/dec of a non-variable")
@@ -809,7 +929,7 @@ func (c *glCtx) stmts(list []ast.Stmt, d int) string {
 		return "let " + n + " := " + n + op + c.intLit(1) + ";" + ind(d) + c.stmts(rest, d)
 	case *ast.DeclStmt:
 		gd, ok := x.Decl.(*ast.GenDecl)
-		if !ok || gd.Tok != token.VAR {
+		if !ok || (gd.Tok != token.VAR && gd.Tok != token.CONST) {
 			c.fail(x, "declaration")
 		}
 		out := ""
@@ -901,6 +1021,30 @@ func (c *glCtx) assign(x *ast.AssignStmt, rest []ast.Stmt, d int) string {
 	}
 	if len(x.Lhs) > 1 {
 		c.fail(x, "parallel assignment")
+	}
+	if ctor, ok := c.t.stores[c.p.str(x.Lhs[0])]; ok && x.Tok == token.ASSIGN {
+		val, _ := c.expr(x.Rhs[0])
+		return "let trace_ := trace_ ++ [" + ctor + " " + val + "];" + ind(d) + c.stmts(rest, d)
+	}
+	if sel, ok := x.Lhs[0].(*ast.SelectorExpr); ok {
+		// x.F = e on a local struct value: a structure update
+		base, ok := sel.X.(*ast.Ident)
+		if !ok {
+			c.fail(x, "assignment to %s", c.p.str(x.Lhs[0]))
+		}
+		bty, ok := c.lookup(base.Name)
+		if !ok {
+			c.fail(x, "field assignment on unknown %s", base.Name)
+		}
+		if _, ok := c.structField(strings.TrimPrefix(bty, "*"), sel.Sel.Name); !ok {
+			c.fail(x, "field %s of %s", sel.Sel.Name, bty)
+		}
+		if x.Tok != token.ASSIGN {
+			c.fail(x, "operator assignment to a field")
+		}
+		val, _ := c.expr(x.Rhs[0])
+		b := leanIdent(base.Name)
+		return "let " + b + " := { " + b + " with " + sel.Sel.Name + " := " + val + " };" + ind(d) + c.stmts(rest, d)
 	}
 	id, ok := x.Lhs[0].(*ast.Ident)
 	if !ok {
